@@ -102,17 +102,21 @@ Step(op, arg, r, a, kind) ==
             /\ (kind = "raw") => (r.off = C!RawOff(a.hit) /\ r.len = C!RawLen(a.hit))
             /\ (kind = "rawx") => r.P = P
             /\ (a.c.mode = "left") => r.P.used = Len(buf)
-      eStr == IF wrongType THEN "7" ELSE "0"
+      \* WRONG_TYPE is promised by C07 for the _ensure LOOKUPS; for next_ensure no listed property says
+      \* anything, so its outcome on a type mismatch is a Layer-I prediction only (drift, never a violation)
+      soft == wrongType /\ op = "ne"
+      eStr == IF wrongType THEN (IF soft THEN "~7" ELSE "7") ELSE "0"
       dStr == IF wrongType THEN "x" ELSE ToString(dexp)
-      tStr == IF wrongType THEN "0"
+      tStr == IF wrongType THEN (IF soft THEN "~0" ELSE "0")
               ELSE IF a.ret /\ kind = "hit" THEN ToString(E!TypeCode(a.hit.node.t)) ELSE "x"
       nStr == IF a.ret /\ kind = "hit" /\ inObj THEN E!Span(a.hit.nOff, a.hit.nLen) ELSE "x"
       vStr == IF a.ret /\ kind = "hit" THEN E!ValStr(buf, a.hit.node)
               ELSE IF kind = "raw" THEN "R" \o E!Span(C!RawOff(a.hit), C!RawLen(a.hit)) ELSE "x"
-      last == E!Full(op, arg, E!Bit(a.ret), eStr, dStr, tStr, nStr, vStr, ToString(r.P.used))
+      rStr == IF soft THEN E!BitI(a.ret) ELSE E!Bit(a.ret)
+      last == E!Full(op, arg, rStr, eStr, dStr, tStr, nStr, vStr, ToString(r.P.used))
   IN
   /\ P' = r.P /\ c' = a.c
-  /\ path' = path \o E!Pre(op, arg, E!Bit(a.ret)) \o " "
+  /\ path' = path \o E!Pre(op, arg, rStr) \o " "
   /\ bad' = IF ok THEN bad ELSE "Layer I deviates from Layer A at: " \o path \o last
   /\ (EmitOn => PrintT(Line(path, last)))
   /\ hist' = Push(hist, op \o arg)
